@@ -50,10 +50,29 @@ def nproc():
         return os.cpu_count() or 4
 
 
+class _Guarded:
+    """A task wrapper: a BaseException escaping a task (the engine's control-flow exceptions are BaseExceptions)
+    would kill the pool worker and leave the parent waiting for ever; turn it into an ordinary error."""
+
+    def __init__(self, task):
+        self.task = task
+
+    def __call__(self, item):
+        try:
+            return self.task(item)
+        except Exception:
+            raise
+        except (KeyboardInterrupt, SystemExit):
+            raise
+        except BaseException as e:
+            raise RuntimeError(f"task ended with {type(e).__name__}: {e}") from None
+
+
 def pool_map(task, items, procs=None, progress=None):
     """Run task(item) for every item in forked workers; yields results as they finish."""
     procs = procs or nproc()
     items = list(items)
+    task = _Guarded(task)
     if procs <= 1 or len(items) <= 1:
         for it in items:
             yield task(it)
